@@ -430,6 +430,7 @@ LOOP:
 	for {
 		select {
 		case iderr := <-done:
+			verifEvent(g, "recv", iderr.ID, iderr.Error)
 			g.Vertices[iderr.ID].status = runDone
 			if iderr.Error != nil {
 				err := fmt.Errorf("Task %s:%s error: %w", g.Name, iderr.ID, iderr.Error)
@@ -443,6 +444,7 @@ LOOP:
 		default:
 			v, allDone, ok := g.getNextVertex()
 			if allDone {
+				verifEvent(g, "exit", "", nil)
 				// Tasks completed outside of this task run.
 				// For example when the same graph was passed to multiple methods and run multiple times.
 				break LOOP
@@ -455,15 +457,18 @@ LOOP:
 				Logger.Print(g.colorError("Cancellation received or time out reached, allowing in-progress tasks to finish, skipping the rest.\n"))
 				g.errs.Errors = append(g.errs.Errors, fmt.Errorf("cancellation received or time out reached"))
 				handledContext = true
+				verifEvent(g, "cancel", "", nil)
 			default:
 				break
 			}
 			if !ok {
+				verifEvent(g, "idle", "", nil)
 				time.Sleep(g.TickerDuration)
 				// TODO: Add a timeout to not wait infinitely for a task.
 				continue
 			}
 			if v.status == runSkip {
+				verifEvent(g, "pickSkip", v.ID, nil)
 				v.status = runInProgress
 				Logger.Printf(g.colorError("Skipped Task ")+g.colorErrorBold("%s:%s\n"), g.Name, v.ID)
 				go func(done chan IDErr, v *Vertex) {
@@ -473,18 +478,24 @@ LOOP:
 			}
 			v.status = runInProgress
 			if len(g.errs.Errors) != 0 {
+				verifEvent(g, "pickErr", v.ID, nil)
 				go func(done chan IDErr, v *Vertex) {
 					done <- IDErr{v.ID, ErrorTaskSkipped}
 				}(done, v)
 				continue
 			}
+			verifEvent(g, "pickReal", v.ID, nil)
 			go func(ctx context.Context, done chan IDErr, v *Vertex) {
 				semaphore <- struct{}{}
 				defer func() { <-semaphore }()
+				verifEvent(g, "semAcq", v.ID, nil)
+				defer verifEvent(g, "semRel", v.ID, nil)
 				Logger.Printf(g.colorInfo("Running Task ")+g.colorInfoBold("%s:%s\n"), g.Name, v.ID)
 				start := time.Now()
 				v.Task.Lock()
 				defer v.Task.Unlock()
+				verifEvent(g, "lockAcq", v.ID, nil)
+				defer verifEvent(g, "lockRel", v.ID, nil)
 				combinedBuffer := bytes.Buffer{}
 				// TODO: It would be great to be able to color the output independently here
 				stdoutBuffer := &combinedBuffer
@@ -495,7 +506,9 @@ LOOP:
 				}
 				var err error
 				for i := 0; i <= v.Retries; i++ {
+					verifEvent(g, "attempt", v.ID, nil)
 					err = v.Task.Fn(ctx, opt, args)
+					verifEvent(g, "attemptEnd", v.ID, err)
 					if g.bufferOutput {
 						g.bufferMutex.Lock()
 						_, _ = combinedBuffer.WriteTo(g.bufferWriter)
@@ -510,6 +523,7 @@ LOOP:
 						Logger.Printf(g.colorInfo("Retrying (%d/%d) Task %s:%s\n"), i+1, v.Retries, g.Name, v.ID)
 					}
 				}
+				verifEvent(g, "send", v.ID, err)
 				done <- IDErr{v.ID, err}
 			}(ctx, done, v)
 		}
